@@ -92,6 +92,7 @@ Qed.
 
 Section Emit.
 Variable r : result.
+Variable sfx : bool.
 Variable rank : nat -> nat.
 Hypothesis Hacy : acyclic_by r rank.
 Variable icc : bool.
@@ -131,7 +132,7 @@ Qed.
 Definition step (f : nat) (acc : list nat * list nat) (d : nat) : list nat * list nat :=
   match find_aeq r d with
   | Some de => if dep_wanted r icc efd de
-               then let '(c, rm) := gen_eq r f icc efd d (snd acc) in (fst acc ++ c, rm)
+               then let '(c, rm) := gen_eq r sfx f icc efd d (snd acc) in (fst acc ++ c, rm)
                else acc
   | None => acc
   end.
@@ -143,7 +144,7 @@ Definition gen_post (pos : nat) (rem : list nat) (stk done : list nat) (code rem
 
 Definition gen_ok (f : nat) : Prop :=
   forall pos rem code rem' stk done,
-    gen_eq r f icc efd pos rem = (code, rem') -> length rem < f -> NoDup rem ->
+    gen_eq r sfx f icc efd pos rem = (code, rem') -> length rem < f -> NoDup rem ->
     (forall a, In a stk -> rank pos < rank a) -> Inv stk rem done ->
     gen_post pos rem stk done code rem'.
 
@@ -168,7 +169,7 @@ Proof.
     2:{ destruct (IH stk _ _ _ _ done H Hlen Hnd) as (A & B & C & D & E & F); try assumption.
         { intros d0 de0 Hin. apply Hrank. right. exact Hin. }
         repeat split; try assumption. intros d0 de0 [->|Hin] Hd0 Hw; [congruence|]. eapply F; eassumption. }
-    destruct (gen_eq r f icc efd d acc_rem) as [c rm] eqn:Eg.
+    destruct (gen_eq r sfx f icc efd d acc_rem) as [c rm] eqn:Eg.
     assert (Hr : forall a, In a stk -> rank d < rank a).
     { intros a Ha. eapply Hrank; [left; reflexivity|exact Ed|exact Ew|exact Ha]. }
     destruct (Hf _ _ _ _ stk (done ++ clos acc_code) Eg Hlen Hnd Hr Hinv) as (G1 & G2 & G3 & G4 & G5 & G6).
@@ -217,28 +218,40 @@ Proof.
             (if is_some_constant e icc then ([], rem1) else
              fold_left (fun acc d => match find_aeq r d with
                                      | Some de => if dep_wanted r icc efd de
-                                                  then let '(c, rm) := gen_eq r f icc efd d (snd acc) in (fst acc ++ c, rm)
+                                                  then let '(c, rm) := gen_eq r sfx f icc efd d (snd acc) in (fst acc ++ c, rm)
                                                   else acc
-                                     | None => acc end) (ae_deps e) ([], rem1)) = (code2, rem2)).
+                                     | None => acc end) (system_deps r sfx e) ([], rem1)) = (code2, rem2)).
   { destruct (if is_some_constant e icc then _ else _) as [c2 r2]. exists c2, r2. reflexivity. }
   destruct Hfold as (code2 & rem2 & Hfold). rewrite Hfold in H. inversion H; subst code rem'. clear H.
-  assert (Hrank1 : forall d de, In d (ae_deps e) -> find_aeq r d = Some de -> dep_wanted r icc efd de = true ->
+  assert (Hsub : forall d, In d (ae_deps e) -> In d (system_deps r sfx e)).
+  { intros d Hd. unfold system_deps. destruct sfx; [apply in_or_app; left; exact Hd|exact Hd]. }
+  assert (Hrank1 : forall d de, In d (system_deps r sfx e) -> find_aeq r d = Some de -> dep_wanted r icc efd de = true ->
                     forall a, In a (pos :: stk) -> rank d < rank a).
   { intros d de Hd Hde Hw a Ha.
-    assert (Hlt : rank d < rank pos).
-    { rewrite <- Hepos. destruct Hacy as (A1 & _). eapply A1; [exact HeIn|exact Hd|exact Hde|].
-      unfold dep_wanted in Hw. apply andb_true_iff in Hw. destruct Hw as (Hw & _). apply andb_true_iff in Hw. destruct Hw as (Hw & _).
+    assert (Hnode : ae_type de <> QOde).
+    { unfold dep_wanted in Hw. apply andb_true_iff in Hw. destruct Hw as (Hw & _). apply andb_true_iff in Hw. destruct Hw as (Hw & _).
       intro K. rewrite K in Hw. discriminate. }
+    assert (Hlt : rank d < rank pos).
+    { destruct Hacy as (A1 & A2). rewrite <- Hepos.
+      assert (Hcases : In d (ae_deps e) \/ exists sb se, In sb (ae_sibs e) /\ find_aeq r sb = Some se /\ In d (ae_deps se)).
+      { unfold system_deps in Hd. destruct sfx; [|left; exact Hd].
+        apply in_app_or in Hd. destruct Hd as [Hd|Hd]; [left; exact Hd|right].
+        apply in_flat_map in Hd. destruct Hd as (sb & Hsb & Hd). destruct (find_aeq r sb) as [se|] eqn:Ese; [|destruct Hd].
+        exists sb, se. repeat split; assumption. }
+      destruct Hcases as [Hd1|(sb & se & Hsb & Hse & Hd1)].
+      - eapply A1; [exact HeIn|exact Hd1|exact Hde|exact Hnode].
+      - destruct (find_aeq_In _ _ _ Hse) as (S1 & S2).
+        pose proof (A1 se d de S1 Hd1 Hde Hnode) as K1. pose proof (A2 e sb HeIn Hsb) as K2. rewrite S2 in K1. lia. }
     destruct Ha as [<-|Ha]; [exact Hlt|]. specialize (Hrank a Ha). lia. }
   assert (Hdeps : ordered_from r icc efd rem0 done code2 = true /\ Inv (pos :: stk) rem2 (done ++ clos code2) /\ NoDup rem2 /\
                   length rem2 <= length rem1 /\ (forall x, mem_nat x rem2 = true -> mem_nat x rem1 = true) /\
                   (is_some_constant e icc = false ->
-                   forall d de, In d (ae_deps e) -> find_aeq r d = Some de -> dep_wanted r icc efd de = true -> mem_nat d rem2 = false)).
+                   forall d de, In d (system_deps r sfx e) -> find_aeq r d = Some de -> dep_wanted r icc efd de = true -> mem_nat d rem2 = false)).
   { destruct (is_some_constant e icc) eqn:Ec.
     - inversion Hfold; subst. cbn [clos flat_map]. rewrite app_nil_r.
       split; [reflexivity|]. split; [exact Hinv1|]. split; [exact Hnd1|]. split; [lia|]. split; [auto|discriminate].
     - change (fun acc d => _) with (step f) in Hfold.
-      destruct (deps_fold_inv f IH (ae_deps e) (pos :: stk) [] rem1 code2 rem2 done Hfold Hlen1 Hnd1 Hrank1) as (A & B & C & D & E & F).
+      destruct (deps_fold_inv f IH (system_deps r sfx e) (pos :: stk) [] rem1 code2 rem2 done Hfold Hlen1 Hnd1 Hrank1) as (A & B & C & D & E & F).
       { cbn [clos flat_map]. rewrite app_nil_r. exact Hinv1. }
       { reflexivity. }
       split; [exact A|]. split; [exact B|]. split; [exact C|]. split; [exact D|]. split; [exact E|]. intros _. exact F. }
@@ -254,9 +267,9 @@ Proof.
     unfold covered. destruct (mem_nat d rem0) eqn:M0; [|reflexivity]. cbn [negb orb].
     assert (Hc : is_some_constant e icc = false).
     { unfold is_some_constant. destruct (ae_type e); try reflexivity; discriminate. }
-    pose proof (D6 Hc d de Hd Ede Ew) as Md.
+    pose proof (D6 Hc d de (Hsub d Hd) Ede Ew) as Md.
     destruct (D2 d M0 Md) as [K|(a & Ha & K)]; [apply mem_nat_In; exact K|exfalso].
-    pose proof (Hrank1 d de Hd Ede Ew a Ha) as Hlt.
+    pose proof (Hrank1 d de (Hsub d Hd) Ede Ew a Ha) as Hlt.
     destruct K as [->|(ea & Hea & Hsib)]; [lia|].
     destruct Hacy as (_ & A2). destruct (find_aeq_In _ _ _ Hea) as (I1 & I2).
     pose proof (A2 ea d I1 Hsib) as K. rewrite I2 in K. lia.
@@ -286,10 +299,10 @@ Proof. induction c as [|x t IH]; cbn; [reflexivity|]. unfold eq_positions in *. 
 Definition top_ok (acc : list stmt * list nat) : Prop :=
   ordered_from r icc efd rem0 [] (eq_positions (fst acc)) = true /\ Inv [] (snd acc) (clos (eq_positions (fst acc))) /\ NoDup (snd acc).
 
-Lemma gen_top_ok : forall acc pos, top_ok acc -> top_ok (gen_top r icc efd acc pos).
+Lemma gen_top_ok : forall acc pos, top_ok acc -> top_ok (gen_top r sfx icc efd acc pos).
 Proof.
   intros [code rem] pos (A & B & C). unfold gen_top. cbn [fst snd] in *.
-  destruct (gen_eq r (S (length rem)) icc efd pos rem) as [c rm] eqn:Eg.
+  destruct (gen_eq r sfx (S (length rem)) icc efd pos rem) as [c rm] eqn:Eg.
   destruct (gen_eq_inv (S (length rem)) pos rem c rm [] (clos (eq_positions code)) Eg) as (G1 & G2 & _ & _ & _ & G6); try assumption; try lia.
   { intros a []. }
   unfold top_ok. cbn [fst snd]. rewrite eq_positions_app, eq_positions_SEq. split; [|split].
@@ -299,7 +312,7 @@ Proof.
 Qed.
 
 Lemma fold_top_ok : forall (sel : aeq -> bool) es acc,
-  top_ok acc -> top_ok (fold_left (fun a e => if sel e then gen_top r icc efd a (ae_pos e) else a) es acc).
+  top_ok acc -> top_ok (fold_left (fun a e => if sel e then gen_top r sfx icc efd a (ae_pos e) else a) es acc).
 Proof.
   intros sel es. induction es as [|e t IH]; intros acc H; cbn [fold_left]; [exact H|].
   apply IH. destruct (sel e); [apply gen_top_ok; exact H|exact H].
@@ -315,25 +328,25 @@ End Emit.
 
 (* ------------------------------------------------------------------ the three computing methods *)
 
-Theorem rates_body_ordered : forall r rank rem, acyclic_by r rank -> NoDup rem ->
-  ordered_from r true [] rem [] (eq_positions (fst (rates_body r rem))) = true.
+Theorem rates_body_ordered : forall r sfx rank rem, acyclic_by r rank -> NoDup rem ->
+  ordered_from r true [] rem [] (eq_positions (fst (rates_body r sfx rem))) = true.
 Proof.
-  intros r rank rem Ha Hnd. unfold rates_body. destruct (has_odes r); [|reflexivity].
-  apply (fold_top_ok r rank Ha true [] rem (is_rate_equation r)). apply top_ok_start; [reflexivity|exact Hnd].
+  intros r sfx rank rem Ha Hnd. unfold rates_body. destruct (has_odes r); [|reflexivity].
+  apply (fold_top_ok r sfx rank Ha true [] rem (is_rate_equation r)). apply top_ok_start; [reflexivity|exact Hnd].
 Qed.
 
-Theorem computed_constants_body_ordered : forall r rank rem, acyclic_by r rank -> NoDup rem ->
-  ordered_from r true [] rem [] (eq_positions (fst (computed_constants_body r rem))) = true.
+Theorem computed_constants_body_ordered : forall r sfx rank rem, acyclic_by r rank -> NoDup rem ->
+  ordered_from r true [] rem [] (eq_positions (fst (computed_constants_body r sfx rem))) = true.
 Proof.
-  intros r rank rem Ha Hnd. unfold computed_constants_body.
-  apply (fold_top_ok r rank Ha true [] rem (fun e => qtype_eqb (ae_type e) QVarBasedConst)). apply top_ok_start; [reflexivity|exact Hnd].
+  intros r sfx rank rem Ha Hnd. unfold computed_constants_body.
+  apply (fold_top_ok r sfx rank Ha true [] rem (fun e => qtype_eqb (ae_type e) QVarBasedConst)). apply top_ok_start; [reflexivity|exact Hnd].
 Qed.
 
-Theorem variables_body_ordered : forall r rank rem, acyclic_by r rank -> NoDup (all_pos r) ->
-  ordered_from r false rem (all_pos r) [] (eq_positions (variables_body r rem)) = true.
+Theorem variables_body_ordered : forall r sfx rank rem, acyclic_by r rank -> NoDup (all_pos r) ->
+  ordered_from r false rem (all_pos r) [] (eq_positions (variables_body r sfx rem)) = true.
 Proof.
-  intros r rank rem Ha Hnd. unfold variables_body.
-  apply (fold_top_ok r rank Ha false rem (all_pos r) (fun e => mem_nat (ae_pos e) rem || to_be_computed_again r e)).
+  intros r sfx rank rem Ha Hnd. unfold variables_body.
+  apply (fold_top_ok r sfx rank Ha false rem (all_pos r) (fun e => mem_nat (ae_pos e) rem || to_be_computed_again r e)).
   apply top_ok_start; [reflexivity|exact Hnd].
 Qed.
 
